@@ -123,6 +123,38 @@ Example tval_recording_example :
   = [HEv (EvUpdate true (1, 7)); HEv (EvGet (1, 7)); HQuiet 1].
 Proof. vm_compute. reflexivity. Qed.
 
+(* ---- method level (what the sequential differential compares) ----
+   constructed from a value: get() returns it and update() has nothing to install *)
+Theorem tval_ctor_value : forall (A : Type) (v0 : A),
+  tv_get (tv_make v0) = v0 /\ tv_update (tv_make v0) = Some (tv_make v0, false).
+Proof. exact @ProofsTVal.tv_ctor_value_proof. Qed.
+Print Assumptions tval_ctor_value.
+
+(* operator= then update(): the value is installed and reported; of several assignments
+   the last one wins; get() is unaffected by an assignment until update() *)
+Theorem tval_assign_then_update : forall (A : Type) (t : tval A) v1 v2,
+  tv_update (tv_assign t v2) = Some ({| tv_new := false; tv_queued := None; tv_current := v2 |}, true)
+  /\ tv_assign (tv_assign t v1) v2 = tv_assign t v2
+  /\ tv_get (tv_assign t v2) = tv_get t.
+Proof. exact @ProofsTVal.tv_assign_update_proof. Qed.
+Print Assumptions tval_assign_then_update.
+
+(* a second update() without a new assignment returns false and changes nothing *)
+Theorem tval_update_idempotent : forall (A : Type) (t t' : tval A) b,
+  tv_update t = Some (t', b) -> tv_update t' = Some (t', false) /\ (b = false -> t' = t).
+Proof. exact @ProofsTVal.tv_update_idem_proof. Qed.
+Print Assumptions tval_update_idempotent.
+
+(* ref() aliases currentValue: a write through it is what get() returns next, it does not
+   touch the queued value or the flag, and a pending assignment still replaces it *)
+Theorem tval_ref_write : forall (A : Type) (t : tval A) v,
+  tv_get (tv_setref t v) = v
+  /\ tv_new (tv_setref t v) = tv_new t /\ tv_queued (tv_setref t v) = tv_queued t
+  /\ (tv_new t = true -> tv_update (tv_setref t v) = tv_update t)
+  /\ (tv_new t = false -> tv_update (tv_setref t v) = Some (tv_setref t v, false)).
+Proof. exact @ProofsTVal.tv_ref_write_proof. Qed.
+Print Assumptions tval_ref_write.
+
 (* non-vacuity: the producer assigns 7 then 9; the consumer's first update() sees the flag
    after the first assignment, is overtaken by the second assignment while waiting for the
    mutex and installs 9 (7 is skipped, which the property allows); then a false update() *)
